@@ -149,4 +149,59 @@ PLANS = {
                  R("h_t1d", "asan", "c14.exhaustive", 1521, 1521, exhaustive=True),
                  R("h_t1d", "fast", "c14.random", 0, 500000), R("h_t1d", "fast", "c14.zeros", 0, 500000)],
     },
+    "C15": {
+        "level": "exploration",
+        "rule": "Row::freespace and Circuit::computeRows vs a per-column oracle (a column of the row is free iff no positive-area "
+                "obstacle overlaps it) on small coordinates and an interval oracle on coordinates up to 2^22; exhaustive: rows of "
+                "width 1..5 x height 1..2 with every set of <= 2 obstacle rectangles of a 7x5 integer grid incl. zero-size ones "
+                "(2.9M configurations); random: up to 8 obstacles, overlapping / enclosing / touching / degenerate; computeRows with "
+                "all four fixed x obstruction flag combinations, movable cells and extra obstacles; non-trivial = some obstacle "
+                "overlaps the row; distinct = sizes, obstacle counts, flag combinations, number of segments",
+        "assumptions": ["well-formed rectangles only (max >= min)", "touching returned segments are merged before comparison: the property asks for disjoint covering segments, not maximal ones"],
+        "runs": [R("h_rows", "asan", "c15.random", 60000, 600000), R("h_rows", "asan", "c15.computeRows", 6000, 60000),
+                 R("h_rows", "fast", "c15.exhaustive", 7570, 7570, exhaustive=True),
+                 R("h_rows", "fast", "c15.random", 0, 4000000), R("h_rows", "fast", "c15.computeRows", 0, 300000)],
+    },
+    "C18": {
+        "level": "exploration",
+        "rule": "expandCellsToDensity (targets in (0,1), margins 0..2, caps 0.02..1.2), expandCellsByFactor (factors 1..9, density caps, "
+                "margins) and computeCellExpansion (up to 8 overlapping regions, congestion 0..3, penalties) on generated circuits "
+                "with mixed heights, fixed cells, zero-size cells and obstructed rows; oracles: frame (only movable widths change), "
+                "monotonicity, density bounds against an independent available-area computation, brute-force max over intersecting "
+                "congested regions; non-trivial = some cell widened / expanded; distinct = branch taken x margin/cap x circuit features",
+        "assumptions": ["tolerances: one max cell height of carry (to-density), one area unit per movable cell of float->int truncation (by-factor), float rounding 1.3e-7 relative on w*f"],
+        "runs": [R("h_expand", "asan", "c18.density", 10000, 100000), R("h_expand", "asan", "c18.factor", 10000, 100000),
+                 R("h_expand", "asan", "c18.congestion", 10000, 100000),
+                 R("h_expand", "fast", "c18.density", 0, 500000), R("h_expand", "fast", "c18.factor", 0, 500000), R("h_expand", "fast", "c18.congestion", 0, 300000)],
+    },
+    "C16": {
+        "level": "exploration",
+        "rule": "DensityLegalizer::fromIspdCircuit on generated circuits (obstructions, split rows, margins 0..1.5, bin factor 1..7): bin "
+                "limits monotone and tiling the bounding box of the clipped free rows, every bin capacity == free area inside it "
+                "(independent free-segment oracle), sum over bins == free area; then random histories (<= 12 steps) over refineX/Y, "
+                "coarsenX/Y, refine, improve, run, coarsenFully, refineFully with random accepted parameter sets, cost models and "
+                "targets (inside, outside, coincident): after every step each positive-demand cell in exactly one bin, zero-demand "
+                "cells in none, coarse capacities sum to the same total, spread coordinates finite and inside the cell's bin; the "
+                "library's own check() asserts are live; non-trivial = >= 1 history step applied; distinct = grid shape, obstruction, "
+                "margin, cost model, transport, history length, levels visited",
+        "assumptions": ["free-segment oracle of harness/circ.hpp"],
+        "runs": [R("h_density", "asan", "c16.history", 2500, 30000), R("h_density", "fast", "c16.history", 0, 120000)],
+    },
+    "C17": {
+        "level": "exploration",
+        "rule": "metamorphic + reference model on NetModel and placeGlobal: (a) all net weights and penalty strengths x 2^k, k in "
+                "[-3,4]\\{0}: solveStar/solve/solveWithPenalty results and whole placeGlobal placements must be bit-identical; (b) "
+                "non-dyadic factors 2.5, 7, 0.3: max difference <= 2e-3 x span on well-posed instances; (c) solveStar (any degree) and "
+                "two-pin nets under all four net models with/without penalty vs dense normal equations solved in double (Gaussian "
+                "elimination, partial pivoting), same tolerance, positive-definite and well-conditioned instances only; weights "
+                "include 0.125..0.5 and 1.5, 2.5; non-trivial = some weight (or scaled weight) is not an integer; distinct = API, net "
+                "model, factor, size",
+        "assumptions": ["CG tolerance 1e-8 / 5000 iterations for tolerance comparisons", "float operations scale exactly by powers of two (no under/overflow in the magnitudes used)"],
+        "runs": [R("h_weights", "asan", "c17.lsq.star", 4000, 40000), R("h_weights", "asan", "c17.lsq.twopin", 4000, 40000),
+                 R("h_weights", "asan", "c17.pow2.model", 4000, 40000), R("h_weights", "asan", "c17.scale.model", 4000, 40000),
+                 R("h_weights", "asan", "c17.pow2.global", 400, 4000),
+                 R("h_weights", "fast", "c17.lsq.star", 0, 200000), R("h_weights", "fast", "c17.lsq.twopin", 0, 200000),
+                 R("h_weights", "fast", "c17.pow2.model", 0, 200000), R("h_weights", "fast", "c17.scale.model", 0, 200000),
+                 R("h_weights", "fast", "c17.pow2.global", 0, 20000)],
+    },
 }
